@@ -61,6 +61,16 @@ def spec_table():
     T["beltCHEUnwrap:badmac"] = ((lambda c: 32), lambda x, c, S: ("beltCHEUnwrap", [x.out(c["L"]), x.buf(expand(c["seed"], c["L"])), c["L"], x.buf(expand(c["seed"] + "a", 13)), 13, x.buf(bytes(8)), S, 32, x.buf(expand(c["seed"] + "iv", 16))]), "ERR_BAD_MAC")
     T["beltKWPWrap"] = ((lambda c: 32), lambda x, c, S: ("beltKWPWrap", [x.out(max(16, c["L"]) + 16), x.buf(expand(c["seed"], max(16, c["L"]))), max(16, c["L"]), None, S, 32]))
     T["beltKWPWrap:secretdata"] = ((lambda c: max(16, c["L"])), lambda x, c, S: ("beltKWPWrap", [x.out(max(16, c["L"]) + 16), S, max(16, c["L"]), None, x.buf(expand(c["seed"], 32)), 32]))
+    def kwp_unwrap_ok(x, c, S):
+        # success exit: the token is made from the secret key material in the parent; the destination is placed at every alignment
+        n = max(16, c["L"])
+        K = x.buf(expand(c["seed"] + "kk", 32))
+        tok = x.out(n + 16)
+        if x.call("beltKWPWrap", tok, S, n, None, K, 32):
+            raise Fail("beltKWPWrap failed while preparing a token")
+        al = c["L"] % 8
+        return "beltKWPUnwrap", [x.out(n + al).at(al), tok, n + 16, None, K, 32]
+    T["beltKWPUnwrap:ok"] = ((lambda c: max(16, c["L"])), kwp_unwrap_ok)
     T["beltKWPUnwrap:badtoken"] = ((lambda c: 32), lambda x, c, S: ("beltKWPUnwrap", [x.out(max(16, c["L"])), x.buf(expand(c["seed"], max(16, c["L"]) + 16)), max(16, c["L"]) + 16, None, S, 32]), "ERR_BAD_KEYTOKEN")
 
     def fmt(x, c, S):
